@@ -291,6 +291,55 @@ def run_same_instant(acc, pendulum, inst, thorough):
                         acc.c["nontrivial"] += 1
 
 
+def check_coexisting(acc, pendulum):
+    """Several Intervals ALIVE at the same time (zero-length ones, equal ones, Date and DateTime endpoints): creating or
+    iterating one does not change what another yields."""
+    U = pendulum.UTC
+    P = pendulum.timezone("Europe/Paris")
+    mk = [("zero-dt-paris", lambda: (pendulum.DateTime(2024, 3, 10, 12, 30, tzinfo=P),) * 2, "days"),
+          ("zero-dt-utc", lambda: (pendulum.DateTime(2031, 7, 1, tzinfo=U),) * 2, "hours"),
+          ("zero-date", lambda: (pendulum.Date(2024, 2, 29),) * 2, "days"),
+          ("zero-date-2", lambda: (pendulum.Date(1999, 12, 31),) * 2, "months"),
+          ("three-days", lambda: (pendulum.DateTime(2021, 1, 30, tzinfo=U), pendulum.DateTime(2021, 2, 2, tzinfo=U)), "days"),
+          ("three-days-again", lambda: (pendulum.DateTime(2021, 1, 30, tzinfo=U), pendulum.DateTime(2021, 2, 2, tzinfo=U)), "days"),
+          ("inverted", lambda: (pendulum.Date(2020, 3, 3), pendulum.Date(2020, 3, 1)), "days"),
+          ("zero-naive", lambda: (pendulum.DateTime(2000, 1, 1, 5),) * 2, "minutes")]
+
+    def key(x):
+        return (x.year, x.month, x.day) + ((x.hour, x.minute, x.second, x.microsecond, obs.offset_s(x) if x.tzinfo else None)
+                                           if hasattr(x, "hour") else ())
+
+    import itertools
+    for order in itertools.permutations(range(len(mk)), 3):
+        alive = []
+        for i in order:
+            name, ends, unit = mk[i]
+            a, b = ends()
+            iv = pendulum.Interval(a, b)
+            n = abs((b - a).days) if name not in ("zero-naive",) and a != b else 0
+            step = dt_timedelta_days(1)
+            want = [key(a + k * step if a <= b else a - k * step) for k in range(n + 1)] if a != b else [key(a)]
+            alive.append((name, iv, unit, want, key(a), key(b)))
+        acc.c["states"] += 1
+        for name, iv, unit, want, ka, kb in alive:
+            acc.c["evaluations"] += 1
+            try:
+                got = [key(x) for _, x in zip(range(10), iv.range(unit))]
+                ends_now = (key(iv.start), key(iv.end))
+                it = [key(x) for _, x in zip(range(10), iv)] if unit == "days" else None
+            except Exception as e:  # noqa: BLE001
+                got, ends_now, it = f"raises {type(e).__name__}", None, None
+            case = {"kind": "coexist", "order": [mk[i][0] for i in order], "interval": name}
+            acc.c["transitions"] += 1
+            if got != want or ends_now != (ka, kb) or (it is not None and it != want):
+                acc.mismatch("range", "coexisting-intervals", case, [got, ends_now, it], [want, [ka, kb], want if unit == "days" else None])
+
+
+def dt_timedelta_days(n):
+    import datetime as dt_
+    return dt_.timedelta(days=n)
+
+
 FLOAT_STEPS = (("hours", 2.5), ("hours", 1.5), ("hours", 0.25), ("minutes", 37.5), ("minutes", 0.5), ("seconds", 0.25), ("seconds", 1.5), ("hours", 3.0))
 FLOAT_SPANS_S = (30 * 3600, 3 * 3600 + 45 * 60, 75 * 60, 90)
 
@@ -346,6 +395,7 @@ def run_shard(shard):
                     acc.c["states"] += 1
                     check_float_steps(acc, pendulum, unit, n, span_s, direction)
         acc.sample({"float_steps": [list(x) for x in FLOAT_STEPS[:4]]})
+        check_coexisting(acc, pendulum)
         return acc.result()
     if shard.get("kind") == "same-instant":
         for inst in shard["instants"]:
@@ -399,7 +449,9 @@ def run_shard(shard):
 
 def replay_case(case, acc):
     import pendulum
-    if case["kind"] == "fsteps":
+    if case["kind"] == "coexist":
+        check_coexisting(acc, pendulum)
+    elif case["kind"] == "fsteps":
         check_float_steps(acc, pendulum, case["unit"], case["n"], case["span"], case["dir"])
     elif case["kind"] == "limits":
         check_limits(acc, pendulum, case["z"])
